@@ -64,6 +64,18 @@ func c02(args []string) error {
 				nl = append(nl, n)
 			}
 		}
+		if nseq >= 2 && r.Intn(12) == 0 {
+			// two names that differ by letter case only
+			alt := strings.ToUpper(nl[0])
+			if alt == nl[0] {
+				alt = strings.ToLower(nl[0])
+			}
+			if alt != nl[0] && !names[alt] {
+				delete(names, nl[1])
+				nl[1] = alt
+				names[alt] = true
+			}
+		}
 		seqs := make([]string, nseq)
 		for k := range seqs {
 			if prot {
